@@ -37,7 +37,9 @@ Theorem C12_source_facts :
   lib_writer_stages_ordered = true /\ cli_writer_stages_ordered = true /\
   cli_writer_flushes_temp = true /\ lib_writer_flushes_temp = true /\
   (* the temp file starts empty whatever an earlier run left there: its content is what THIS run wrote *)
-  temp_open_truncate = true /\ temp_open_append = false /\ temp_open_create_new = false.
+  temp_open_truncate = true /\ temp_open_append = false /\ temp_open_create_new = false /\
+  (* spawn_blocking inside the ordered stages is the only concurrency in the writers and the clone command *)
+  only_ordered_stage_concurrency = true.
 Proof. repeat split; reflexivity. Qed.
 
 Print Assumptions C12_input_delivery_irrelevant.
